@@ -128,6 +128,10 @@ class ExchangeMove(
                 return []
 
             self.to_delete_label = int(context.rng.choice(self.unique_labels))
+        elif self.to_delete_label not in self.unique_labels:
+            # a pre-selected label must be eligible like a drawn one: atoms with a negative
+            # (do-not-touch) label are never deleted
+            return []
 
         (indices,) = np.where(self.labels == self.to_delete_label)
 
